@@ -246,3 +246,29 @@ pub fn lay_case_strategy(g: LayGen) -> BoxedStrategy<Case> {
         })
         .boxed()
 }
+
+pub fn serde_case_strategy() -> BoxedStrategy<Case> {
+    let u = prop_oneof![2 => Just(3u64), 3 => Just(10u64), 2 => Just(60u64), 1 => Just(5000u64)];
+    (u, plan_strategy(), 0u64..2, 0u64..4, 0u64..8, 0u32..100, 0u64..40, 0u32..100)
+        .prop_flat_map(move |(u, plan, coll, mode, hint, errp, pre, be)| {
+            let n = prop_oneof![4 => 0usize..12, 3 => 12usize..80, 1 => 80usize..400];
+            (n, 0u64..65536).prop_flat_map(move |(n, errfrac)| {
+                vec((0..u, 0u64..1000), n..=n).prop_map(move |entries| {
+                    let mut c = Case::new("serde");
+                    c.set("prop", 20);
+                    c.set("coll", coll);
+                    c.set("mode", mode);
+                    c.set("hint", hint);
+                    c.set("pre", pre);
+                    c.set("backend", (be < 20) as u64);
+                    // an error in 35% of the cases, at an element position inside (or just past) the stream
+                    let units = entries.len() as u64 * if coll == 1 { 1 } else { 2 };
+                    c.set("err", if errp < 35 { 1 + hbv::case::frac_to(errfrac, units as usize + 1) as u64 } else { 0 });
+                    set_plan(&mut c, "", plan);
+                    c.ops = entries.iter().map(|(k, v)| hbv::case::Op::new(0, &[*k, *v])).collect();
+                    c
+                })
+            })
+        })
+        .boxed()
+}
